@@ -531,6 +531,12 @@ FAMILY_CFGS = [
     dict(sizes=[2, 3], joint_mono=[[0, 1]]), dict(sizes=[3, 2], joint_mono=[[0, 1]]),
     dict(sizes=[2, 3], monos=[1, 0], ew=[[0, 1, 1]]), dict(sizes=[3, 2], monos=[1, 0], ew=[[0, 1, -1]]),
     dict(sizes=[2, 3], monos=[1, 1], range_dom=[[1, 0]]),
+    # MORE THAN ONE constraint of the same family (every listed pair / trust must get its own groups)
+    dict(sizes=[2, 2, 2], joint_mono=[[0, 1], [1, 2]]), dict(sizes=[2, 2, 2], joint_mono=[[0, 2], [0, 1]]),
+    dict(sizes=[2, 2, 2], monos=[1, 1, 1], mono_dom=[[0, 1], [1, 2]]),
+    dict(sizes=[2, 2, 2], monos=[1, 0, 0], ew=[[0, 1, 1], [0, 2, -1]]),
+    dict(sizes=[2, 2, 2], monos=[1, 0, 0], tz=[[0, 1, 1], [0, 2, -1]]),
+    dict(sizes=[2, 2, 2], monos=[1, 1, 1], range_dom=[[0, 1], [1, 2]]),
 ]
 
 
@@ -570,7 +576,7 @@ def configs(tier, rng):
           jobs.append(('group', dict(cfg, family='range_dominance', pair=p, group=list(g))))
       jobs.append(('fixpoint', cfg))
       jobs.append(('recurrence', cfg))
-      if units == 1 and (tier != 'quick' or len(sizes) <= 2):
+      if units == 1 and (tier != 'quick' or len(sizes) <= 2 or sum(len(base.get(k) or []) for k in ('joint_mono', 'mono_dom', 'ew', 'tz', 'range_dom')) > 1 and sizes == [2, 2, 2]):
         jobs.append(('convergence', dict(base)))
   jobs.append(('fixpoint', dict(sizes=[3, 3], units=1, joint_uni=[[[0, 1], 'valley']])))
   jobs.append(('fixpoint', dict(sizes=[3], units=2, joint_uni=[[[0], 'peak']])))
